@@ -28,8 +28,8 @@ import (
 	"github.com/attestantio/vouch/services/beaconblockproposer"
 	standardproposer "github.com/attestantio/vouch/services/beaconblockproposer/standard"
 	"github.com/attestantio/vouch/services/cache"
-	"github.com/attestantio/vouch/services/graffitiprovider"
 	mockcache "github.com/attestantio/vouch/services/cache/mock"
+	"github.com/attestantio/vouch/services/graffitiprovider"
 	nullmetrics "github.com/attestantio/vouch/services/metrics/null"
 	bestproposal "github.com/attestantio/vouch/strategies/beaconblockproposal/best"
 	"github.com/attestantio/vouch/util"
@@ -93,26 +93,43 @@ func (s *c16Submitter) SubmitProposal(_ context.Context, p *api.VersionedSignedP
 	return nil
 }
 
-// c16Auctioneer stands for Vouch's block relay service.
+// c16Auctioneer stands for Vouch's block relay service; what an auction yields is scripted per call.
 type c16Auctioneer struct {
+	mu       sync.Mutex
 	kind     string
+	relay    builderclient.BuilderBidProvider
 	provider builderclient.BuilderBidProvider
 }
 
+func (a *c16Auctioneer) script(kind string) {
+	a.mu.Lock()
+	defer a.mu.Unlock()
+	a.kind = kind
+	switch kind {
+	case "won":
+		a.provider = a.relay
+	case "cannotunblind":
+		a.provider = &c16BidOnly{}
+	}
+}
+
 func (a *c16Auctioneer) AuctionBlock(_ context.Context, _ phase0.Slot, _ phase0.Hash32, _ phase0.BLSPubKey) (*blockauctioneer.Results, error) {
+	a.mu.Lock()
+	kind, provider := a.kind, a.provider
+	a.mu.Unlock()
 	res := &blockauctioneer.Results{
 		Participation: map[string]*blockauctioneer.Participation{},
 		AllProviders:  []builderclient.BuilderBidProvider{},
 		Providers:     []builderclient.BuilderBidProvider{},
 	}
-	switch a.kind {
+	switch kind {
 	case "failed":
 		return nil, errors.New("no account found for public key")
 	case "empty":
 		return res, nil
 	default:
-		res.AllProviders = append(res.AllProviders, a.provider)
-		res.Providers = append(res.Providers, a.provider)
+		res.AllProviders = append(res.AllProviders, provider)
+		res.Providers = append(res.Providers, provider)
 		return res, nil
 	}
 }
@@ -128,10 +145,22 @@ func (*c16BidOnly) BuilderBid(_ context.Context, _ *builderapi.BuilderBidOpts) (
 }
 
 // c16Graffiti is a scripted graffiti provider.
-type c16Graffiti struct{ kind string }
+type c16Graffiti struct {
+	mu   sync.Mutex
+	kind string
+}
+
+func (g *c16Graffiti) script(kind string) {
+	g.mu.Lock()
+	g.kind = kind
+	g.mu.Unlock()
+}
 
 func (g *c16Graffiti) Graffiti(_ context.Context, _ phase0.Slot, _ phase0.ValidatorIndex) ([]byte, error) {
-	switch g.kind {
+	g.mu.Lock()
+	kind := g.kind
+	g.mu.Unlock()
+	switch kind {
 	case "error":
 		return nil, errors.New("graffiti unavailable")
 	case "short":
@@ -142,31 +171,34 @@ func (g *c16Graffiti) Graffiti(_ context.Context, _ phase0.Slot, _ phase0.Valida
 	return []byte{}, nil
 }
 
-func c16RunProposer(ctx context.Context, sh map[string]string) c16Res {
+func (s *c16Submitter) count() int {
+	s.mu.Lock()
+	defer s.mu.Unlock()
+	return s.submitted
+}
+
+func c16Randao() phase0.BLSSignature {
+	var randao phase0.BLSSignature
+	randao[0], randao[95] = 0xc0, 0x01
+	return randao
+}
+
+// c16ProposerInst: the block proposer with its node, its (fake) auctioneer and the relay that unblinds.
+type c16ProposerInst struct {
+	node       *c16Server
+	relay      *c16Server
+	gate       *c16Gate
+	submitter  *c16Submitter
+	auctioneer *c16Auctioneer
+	graffiti   *c16Graffiti
+	s          *standardproposer.Service
+}
+
+func c16NewProposerInst(ctx context.Context, first map[string]string) c16Instance {
 	viper.Set("timeout", 2*time.Second)
-	blinded := sh["blinded"] == "y"
-	node := c16NewNode(c16NodeVersion("teku"))
-	defer node.Close()
-	node.Set("/eth/v3/validator/blocks/", c16ProposalAnswer(sh["ver"], blinded, sh["body"], false))
-	client := c16NodeClient(ctx, node)
-
-	relay := c16NewServer()
-	defer relay.Close()
-	unblindVer := sh["ver"]
-	if sh["unblind"] == "wrongver" {
-		unblindVer = "capella"
-		if sh["ver"] == "capella" {
-			unblindVer = "bellatrix"
-		}
-	}
-	if a, ok := c16BadAnswer(sh["unblind"]); ok {
-		relay.Set("/eth/v1/builder/blinded_blocks", a)
-	} else if sh["ver"] == "bellatrix" || sh["ver"] == "capella" || sh["ver"] == "deneb" {
-		relay.Set("/eth/v1/builder/blinded_blocks", c16Answer{Status: 200, Headers: map[string]string{"Eth-Consensus-Version": unblindVer},
-			Body: fmt.Sprintf(`{"version":%q,"data":%s}`, unblindVer, c16UnblindData(unblindVer, c16BlockSpec{}))})
-	}
-
-	submitter := &c16Submitter{}
+	in := &c16ProposerInst{node: c16NewNode(c16NodeVersion("teku")), relay: c16NewServer(), gate: &c16Gate{}, submitter: &c16Submitter{}}
+	in.node.Gate("/eth/v3/validator/blocks/", in.gate)
+	client := c16NodeClient(ctx, in.node)
 	accounts := mockaccountmanager.NewValidatingAccountsProvider()
 	accounts.AddAccount(1, c16Account(1))
 	params := []standardproposer.Parameter{
@@ -176,47 +208,74 @@ func c16RunProposer(ctx context.Context, sh map[string]string) c16Res {
 		standardproposer.WithProposalDataProvider(client.(eth2client.ProposalProvider)),
 		standardproposer.WithValidatingAccountsProvider(accounts),
 		standardproposer.WithExecutionChainHeadProvider(mockcache.New(map[phase0.Root]phase0.Slot{}).(cache.ExecutionChainHeadProvider)),
-		standardproposer.WithProposalSubmitter(submitter),
+		standardproposer.WithProposalSubmitter(in.submitter),
 		standardproposer.WithRANDAORevealSigner(&c16Signer{}),
 		standardproposer.WithBeaconBlockSigner(&c16Signer{}),
 		standardproposer.WithBlobSidecarSigner(&c16Signer{}),
 		standardproposer.WithBuilderBoostFactor(100),
 	}
-	if sh["auction"] != "none" {
-		a := &c16Auctioneer{kind: sh["auction"]}
-		switch sh["auction"] {
-		case "won":
-			bc, err := util.FetchBuilderClient(ctx, relay.URL(), nullmetrics.New(), "verif")
-			if err != nil {
-				panic("c16 harness: relay client: " + err.Error())
-			}
-			a.provider = bc.(builderclient.BuilderBidProvider)
-		case "cannotunblind":
-			a.provider = &c16BidOnly{}
+	if first["auction"] != "none" {
+		bc, err := util.FetchBuilderClient(ctx, in.relay.URL(), nullmetrics.New(), "verif")
+		if err != nil {
+			panic("c16 harness: relay client: " + err.Error())
 		}
-		params = append(params, standardproposer.WithBlockAuctioneer(a))
+		in.auctioneer = &c16Auctioneer{relay: bc.(builderclient.BuilderBidProvider)}
+		params = append(params, standardproposer.WithBlockAuctioneer(in.auctioneer))
 	}
-	if sh["graffiti"] != "none" {
-		params = append(params, standardproposer.WithGraffitiProvider(&c16Graffiti{kind: sh["graffiti"]}))
+	if first["graffiti"] != "none" {
+		in.graffiti = &c16Graffiti{}
+		params = append(params, standardproposer.WithGraffitiProvider(in.graffiti))
 	}
 	s, err := standardproposer.New(ctx, params...)
 	if err != nil {
 		panic("c16 harness: proposer: " + err.Error())
 	}
-	duty := beaconblockproposer.NewDuty(c16Slot, 1)
-	var randao phase0.BLSSignature
-	randao[0], randao[95] = 0xc0, 0x01
-	duty.SetRandaoReveal(randao)
-	duty.SetAccount(c16Account(1))
+	in.s = s
+	return in
+}
 
+func (in *c16ProposerInst) Gate() *c16Gate { return in.gate }
+func (in *c16ProposerInst) Close() {
+	in.gate.Release()
+	in.node.Close()
+	in.relay.Close()
+}
+
+func (in *c16ProposerInst) Prepare(_ int, sh map[string]string) {
+	in.node.Set("/eth/v3/validator/blocks/", c16ProposalAnswer(sh["ver"], sh["blinded"] == "y", sh["body"], false))
+	unblindVer := sh["ver"]
+	if sh["unblind"] == "wrongver" {
+		unblindVer = "capella"
+		if sh["ver"] == "capella" {
+			unblindVer = "bellatrix"
+		}
+	}
+	if a, ok := c16BadAnswer(sh["unblind"]); ok {
+		in.relay.Set("/eth/v1/builder/blinded_blocks", a)
+	} else if sh["ver"] == "bellatrix" || sh["ver"] == "capella" || sh["ver"] == "deneb" {
+		in.relay.Set("/eth/v1/builder/blinded_blocks", c16Answer{Status: 200, Headers: map[string]string{"Eth-Consensus-Version": unblindVer},
+			Body: fmt.Sprintf(`{"version":%q,"data":%s}`, unblindVer, c16UnblindData(unblindVer, c16BlockSpec{}))})
+	} else {
+		in.relay.Set("/eth/v1/builder/blinded_blocks", c16Answer{Status: 404, Body: `{"code":404,"message":"not found"}`})
+	}
+	if in.auctioneer != nil {
+		in.auctioneer.script(sh["auction"])
+	}
+	if in.graffiti != nil {
+		in.graffiti.script(sh["graffiti"])
+	}
+}
+
+func (in *c16ProposerInst) Invoke(ctx context.Context, k int, sh map[string]string) c16Res {
+	duty := beaconblockproposer.NewDuty(c16CallSlot(k), 1)
+	duty.SetRandaoReveal(c16Randao())
+	duty.SetAccount(c16Account(1))
+	before := in.submitter.count()
 	pctx, cancel := context.WithTimeout(ctx, 4*time.Second)
 	defer cancel()
-	s.Propose(pctx, duty)
+	in.s.Propose(pctx, duty)
 	time.Sleep(20 * time.Millisecond) // unblinding goroutines of the proposer that lost the race
-	submitter.mu.Lock()
-	n := submitter.submitted
-	submitter.mu.Unlock()
-	if n == 0 {
+	if in.submitter.count() == before {
 		return c16Err("no proposal submitted")
 	}
 	if sh["graffiti"] == "error" {
@@ -225,27 +284,34 @@ func c16RunProposer(ctx context.Context, sh map[string]string) c16Res {
 	return c16OK("proposal submitted")
 }
 
-// c16RunGraffitiPropose: entry point "graffiti" with use = propose | proposebest.  The real proposer
-// takes its graffiti from the real dynamic provider (whatever the operator's file holds) and proposes:
-// directly through the client library (the proposer expands {{CLIENT}}) or through the real `best`
-// proposal strategy (the strategy expands it per node).  Several proposals, because the provider picks
-// a line at random.
-func c16RunGraffitiPropose(ctx context.Context, sh map[string]string, provider graffitiprovider.Service) c16Res {
+// c16GraffitiProposeInst: entry point "graffiti" with use = propose | proposebest.  The real proposer
+// takes its graffiti from the real dynamic provider (whatever the operator's file holds at that time) and
+// proposes: directly through the client library (the proposer expands {{CLIENT}}) or through the real
+// `best` proposal strategy (the strategy expands it per node).  Several proposals per call, because the
+// provider picks a line at random.
+type c16GraffitiProposeInst struct {
+	node      *c16Server
+	submitter *c16Submitter
+	s         *standardproposer.Service
+	mu        sync.Mutex
+	seen      map[uint64][]string // graffiti asked for, by slot
+}
+
+func c16NewGraffitiProposeInst(ctx context.Context, use string, provider graffitiprovider.Service) *c16GraffitiProposeInst {
 	viper.Set("timeout", 2*time.Second)
-	node := c16NewNode(c16NodeVersion("teku"))
-	defer node.Close()
-	var seen []string
-	var mu sync.Mutex
+	in := &c16GraffitiProposeInst{node: c16NewNode(c16NodeVersion("teku")), submitter: &c16Submitter{}, seen: map[uint64][]string{}}
 	answer := c16ProposalAnswer("deneb", false, "valid", false)
-	node.Set("/eth/v3/validator/blocks/", c16Answer{Func: func(r *http.Request) c16Answer {
-		mu.Lock()
-		seen = append(seen, r.URL.Query().Get("graffiti"))
-		mu.Unlock()
+	in.node.Set("/eth/v3/validator/blocks/", c16Answer{Func: func(r *http.Request) c16Answer {
+		var slot uint64
+		fmt.Sscanf(strings.TrimPrefix(r.URL.Path, "/eth/v3/validator/blocks/"), "%d", &slot)
+		in.mu.Lock()
+		in.seen[slot] = append(in.seen[slot], r.URL.Query().Get("graffiti"))
+		in.mu.Unlock()
 		return answer.Func(r)
 	}})
-	client := c16NodeClient(ctx, node)
+	client := c16NodeClient(ctx, in.node)
 	var proposals eth2client.ProposalProvider = client.(eth2client.ProposalProvider)
-	if sh["use"] == "proposebest" {
+	if use == "proposebest" {
 		best, err := bestproposal.New(ctx,
 			bestproposal.WithLogLevel(c16LogLevel()),
 			bestproposal.WithTimeout(400*time.Millisecond),
@@ -263,7 +329,6 @@ func c16RunGraffitiPropose(ctx context.Context, sh map[string]string, provider g
 		}
 		proposals = best
 	}
-	submitter := &c16Submitter{}
 	accounts := mockaccountmanager.NewValidatingAccountsProvider()
 	accounts.AddAccount(1, c16Account(1))
 	s, err := standardproposer.New(ctx,
@@ -273,7 +338,7 @@ func c16RunGraffitiPropose(ctx context.Context, sh map[string]string, provider g
 		standardproposer.WithProposalDataProvider(proposals),
 		standardproposer.WithValidatingAccountsProvider(accounts),
 		standardproposer.WithExecutionChainHeadProvider(mockcache.New(map[phase0.Root]phase0.Slot{}).(cache.ExecutionChainHeadProvider)),
-		standardproposer.WithProposalSubmitter(submitter),
+		standardproposer.WithProposalSubmitter(in.submitter),
 		standardproposer.WithRANDAORevealSigner(&c16Signer{}),
 		standardproposer.WithBeaconBlockSigner(&c16Signer{}),
 		standardproposer.WithBlobSidecarSigner(&c16Signer{}),
@@ -283,28 +348,31 @@ func c16RunGraffitiPropose(ctx context.Context, sh map[string]string, provider g
 	if err != nil {
 		panic("c16 harness: proposer: " + err.Error())
 	}
+	in.s = s
+	return in
+}
+
+func (in *c16GraffitiProposeInst) propose(ctx context.Context, k int) c16Res {
 	const rounds = 4
+	slot := c16CallSlot(k)
+	before := in.submitter.count()
 	for i := 0; i < rounds; i++ {
-		duty := beaconblockproposer.NewDuty(c16Slot, 7)
-		var randao phase0.BLSSignature
-		randao[0], randao[95] = 0xc0, 0x01
-		duty.SetRandaoReveal(randao)
+		duty := beaconblockproposer.NewDuty(slot, 7)
+		duty.SetRandaoReveal(c16Randao())
 		duty.SetAccount(c16Account(1))
 		pctx, cancel := context.WithTimeout(ctx, 4*time.Second)
-		s.Propose(pctx, duty)
+		in.s.Propose(pctx, duty)
 		cancel()
 	}
 	time.Sleep(20 * time.Millisecond)
-	submitter.mu.Lock()
-	n := submitter.submitted
-	submitter.mu.Unlock()
+	n := in.submitter.count() - before
 	if n < rounds {
 		return c16Err(fmt.Sprintf("%d of %d proposals submitted", n, rounds))
 	}
-	mu.Lock()
-	defer mu.Unlock()
+	in.mu.Lock()
+	defer in.mu.Unlock()
 	empty := "0x" + strings.Repeat("00", 32)
-	for _, g := range seen {
+	for _, g := range in.seen[uint64(slot)] {
 		if g != empty && g != "" {
 			return c16OK(fmt.Sprintf("%d proposals, graffiti %s", n, g))
 		}
@@ -312,39 +380,30 @@ func c16RunGraffitiPropose(ctx context.Context, sh map[string]string, provider g
 	return c16Fallback(fmt.Sprintf("%d proposals with empty graffiti", n))
 }
 
-func c16RunProposalBest(ctx context.Context, sh map[string]string) c16Res {
+// c16ProposalBestInst: the `best` proposal strategy over n nodes whose client name has clen characters.
+type c16ProposalBestInst struct {
+	nodes []*c16Server
+	gate  *c16Gate
+	s     *bestproposal.Service
+}
+
+func c16NewProposalBestInst(ctx context.Context, first map[string]string) c16Instance {
 	clen := 0
-	fmt.Sscanf(sh["clen"], "%d", &clen)
+	fmt.Sscanf(first["clen"], "%d", &clen)
 	version := strings.Repeat("N", clen)
 	n := 1
-	if sh["n"] == "2" {
+	if first["n"] == "2" {
 		n = 2
 	}
+	in := &c16ProposalBestInst{gate: &c16Gate{}}
 	providers := map[string]eth2client.ProposalProvider{}
 	for i := 0; i < n; i++ {
 		node := c16NewNode(version)
-		defer node.Close()
-		body, zeroFee := "valid", false
-		if i == 0 {
-			switch sh["proposal"] {
-			case "nildata":
-				body = "datanull"
-			case "error":
-				body = "http500"
-			case "zerofee":
-				zeroFee = true
-			case "nilvalues":
-				body = "novalues"
-			}
-		}
-		node.Set("/eth/v3/validator/blocks/", c16ProposalAnswer("deneb", false, body, zeroFee))
-		client := c16NodeClient(ctx, node)
-		if sh["nodeclient"] == "error" {
-			// the node stops answering the version request after the connection was established
-			node.Set("/eth/v1/node/version", c16Answer{Status: 500, Body: `{"code":500,"message":"no"}`})
-		}
-		providers[fmt.Sprintf("node%d", i)] = client.(eth2client.ProposalProvider)
+		in.nodes = append(in.nodes, node)
+		node.Set("/eth/v3/validator/blocks/", c16ProposalAnswer("deneb", false, "valid", false))
+		providers[fmt.Sprintf("node%d", i)] = c16NodeClient(ctx, node).(eth2client.ProposalProvider)
 	}
+	in.nodes[0].Gate("/eth/v3/validator/blocks/", in.gate)
 	s, err := bestproposal.New(ctx,
 		bestproposal.WithLogLevel(c16LogLevel()),
 		bestproposal.WithTimeout(400*time.Millisecond),
@@ -360,6 +419,44 @@ func c16RunProposalBest(ctx context.Context, sh map[string]string) c16Res {
 	if err != nil {
 		panic("c16 harness: best proposal strategy: " + err.Error())
 	}
+	in.s = s
+	return in
+}
+
+func (in *c16ProposalBestInst) Gate() *c16Gate { return in.gate }
+func (in *c16ProposalBestInst) Close() {
+	in.gate.Release()
+	for _, node := range in.nodes {
+		node.Close()
+	}
+}
+
+func (in *c16ProposalBestInst) Prepare(_ int, sh map[string]string) {
+	body, zeroFee := "valid", false
+	switch sh["proposal"] {
+	case "nildata":
+		body = "datanull"
+	case "error":
+		body = "http500"
+	case "zerofee":
+		zeroFee = true
+	case "nilvalues":
+		body = "novalues"
+	}
+	in.nodes[0].Set("/eth/v3/validator/blocks/", c16ProposalAnswer("deneb", false, body, zeroFee))
+	clen := 0
+	fmt.Sscanf(sh["clen"], "%d", &clen)
+	for _, node := range in.nodes {
+		if sh["nodeclient"] == "error" {
+			// the node stops answering the version request after the connection was established
+			node.Set("/eth/v1/node/version", c16Answer{Status: 500, Body: `{"code":500,"message":"no"}`})
+		} else {
+			node.Set("/eth/v1/node/version", c16JSON(fmt.Sprintf(`{"data":{"version":%q}}`, strings.Repeat("N", clen))))
+		}
+	}
+}
+
+func (in *c16ProposalBestInst) Invoke(ctx context.Context, k int, sh map[string]string) c16Res {
 	var graffiti [32]byte
 	switch sh["graffiti"] {
 	case "plain":
@@ -371,9 +468,7 @@ func c16RunProposalBest(ctx context.Context, sh map[string]string) c16Res {
 	case "full":
 		copy(graffiti[:], "0123456789012345678901{{CLIENT}}")
 	}
-	var randao phase0.BLSSignature
-	randao[0], randao[95] = 0xc0, 0x01
-	resp, err := s.Proposal(ctx, &api.ProposalOpts{Slot: c16Slot, RandaoReveal: randao, Graffiti: graffiti})
+	resp, err := in.s.Proposal(ctx, &api.ProposalOpts{Slot: c16CallSlot(k), RandaoReveal: c16Randao(), Graffiti: graffiti})
 	time.Sleep(20 * time.Millisecond)
 	if err != nil {
 		return c16Err(err.Error())
@@ -388,6 +483,6 @@ func c16RunProposalBest(ctx context.Context, sh map[string]string) c16Res {
 }
 
 func init() {
-	c16Register("proposer", c16RunProposer)
-	c16Register("proposalbest", c16RunProposalBest)
+	c16RegisterInstance("proposer", c16NewProposerInst)
+	c16RegisterInstance("proposalbest", c16NewProposalBestInst)
 }
